@@ -290,7 +290,7 @@ def make_productive(g, rng):
                     e["xs"] = [guard(x) for x in e["xs"]]
             elif k == "rep":
                 e["x"] = fix(e["x"])
-                if e["op"] in "*+":
+                if e["op"] in "*+?":
                     e["x"] = guard(e["x"])
                 elif e["op"] == "#":
                     xs = []
@@ -300,7 +300,7 @@ def make_productive(g, rng):
                         xs.append(x if opt else guard(x))
                     e["x"]["xs"] = xs
             elif k == "asgn":
-                if e["op"] in ("+=", "*=") and falsy(e["rhs"], fr):
+                if e["op"] in ("+=", "*=", "?=") and falsy(e["rhs"], fr):
                     e["rhs"] = {"k": "ref", "name": "INT"}
             elif k == "pred":
                 e["x"] = fix(e["x"])
@@ -503,6 +503,7 @@ class Prop(Check):
     ID = "C01"
     LEAN_MODULE = "TextxVerif.Props.C01"
     THEOREMS = ["Tx.C01_expr_partial", "Tx.C01_expr_accepts_iff", "Tx.C01_verdict_fuel_independent",
+                "Tx.C01_build_flat_partial", "Tx.C01_token_value",
                 "Tx.C01_full_false_none_alternative", "Tx.C01_full_false_empty_list_alternative",
                 "Tx.C01_full_false_falsy_repetition", "Tx.C01_full_false_separator_kept",
                 "Tx.C01_full_false_comment_cache", "Tx.C01_full_false_ws_restore"]
